@@ -399,6 +399,100 @@ def walker_history_case(ctx, rng, seed, n, reqs):
         pop_env()
 
 
+THEORY_FIELDS = ["arrays", "arrays_const", "bit_vectors", "floating_point", "integer_arithmetic", "real_arithmetic",
+                 "integer_difference", "real_difference", "linear", "uninterpreted", "custom_type", "strings"]
+
+
+def enc_dag(nodes_wanted):
+    """one wire DAG (`T n defs`) containing all the given FNodes; returns (text, index by FNode)"""
+    import wire
+    idx = {}
+    defs = []
+    stack = [(f, False) for f in reversed(nodes_wanted)]
+    while stack:
+        n, expanded = stack.pop()
+        if n in idx:
+            continue
+        if expanded:
+            nt = n.node_type()
+            if nt >= len(wire.OPNAMES):
+                raise wire.OutOfFragment("custom node type")
+            a = n.args()
+            defs.append("%s %s %d%s" % (wire.OPNAMES[nt], wire._payload(n), len(a),
+                                        "".join(" %d" % idx[c] for c in a)))
+            idx[n] = len(defs) - 1
+        else:
+            stack.append((n, True))
+            for c in reversed(n.args()):
+                if c not in idx:
+                    stack.append((c, False))
+    return "T %d %s" % (len(defs), " ".join(defs)), idx
+
+
+def theory_heap_case(ctx, rng, seed, n, reqs):
+    """a history of get_theory calls on env.theoryo vs the heap model: cached values and alias partition"""
+    import wire
+    env, fam = P15.make_env(seed, n)
+    push_env(env)
+    try:
+        F = formulas(env, fam)
+        U = F[-N_UF:]
+        hist = [rng.choice(U if rng.random() < 0.5 else F) for _ in range(rng.randint(2, 9))]
+        for f in hist:
+            env.theoryo.get_theory(f)
+        memo = dict(env.theoryo.memoization)
+        try:
+            text, idx = enc_dag(hist + list(memo))
+        except wire.OutOfFragment:
+            ctx.count("theory-heap-out-of-fragment")
+            ctx.case(None)
+            return
+        order = sorted(idx, key=lambda k: idx[k])
+        impl = []
+        for nd in order:
+            th = memo.get(nd)
+            impl.append(None if th is None else
+                        (id(th), "".join("1" if getattr(th, f) else "0" for f in THEORY_FIELDS)))
+        req = "theoryheap %d %s %s" % (len(hist), " ".join(str(idx[f]) for f in hist), text)
+        reqs.append((req, impl, {"seed": seed, "n": n, "history": [str(f)[:60] for f in hist]}))
+        ctx.case(("theory-heap", seed, tuple(idx[f] for f in hist)))
+    finally:
+        pop_env()
+
+
+def compare_theory_heap(ctx, req, impl, replay, ans):
+    if not ans.startswith("ok"):
+        ctx.report_k("theory heap model rejected the request: %s" % ans[:100], dict(replay, req=req[:1500]))
+        return
+    fields = ans.split(" ")[1:]
+    if len(fields) != len(impl):
+        ctx.report_k("theory heap model: %d nodes, implementation %d" % (len(fields), len(impl)), replay)
+        return
+    m_part, i_part = {}, {}
+    for i, (fm, im) in enumerate(zip(fields, impl)):
+        if (fm == "-") != (im is None):
+            ctx.report_k("TheoryOracle memo: node %d memoised in %s only" % (i, "the model" if im is None else "pySMT"),
+                         dict(replay, req=req[:1500]))
+            return
+        if im is None:
+            continue
+        addr, bits = fm.split(":")
+        if bits != im[1]:
+            ctx.report_k("TheoryOracle memo: cached Theory of node %d is %s, model %s (fields %s)" % (
+                i, im[1], bits, ",".join(f for f, a, b in zip(THEORY_FIELDS, im[1], bits) if a != b)),
+                dict(replay, req=req[:1500], node=i))
+            return
+        m_part.setdefault(addr, []).append(i)
+        i_part.setdefault(im[0], []).append(i)
+    mp = sorted(map(tuple, m_part.values()))
+    ip = sorted(map(tuple, i_part.values()))
+    if mp != ip:
+        diff = [c for c in ip if c not in mp][:2]
+        ctx.report_k("TheoryOracle memo: alias partition differs: pySMT shares one Theory object between nodes %s, "
+                     "the model's classes are all %s" % (diff, "singletons" if all(len(c) == 1 for c in mp) else mp[:3]),
+                     dict(replay, req=req[:1500]))
+
+
 def run(ctx):
     sys.setrecursionlimit(1000)
     rng = ctx.rng
@@ -436,8 +530,17 @@ def run(ctx):
             break
         seed, n = pools[i % len(pools)]
         walker_history_case(ctx, rng, seed, n, reqs)
-    table = W.model_answers(ctx, "C14", [r for r, _, _ in reqs])
+    heap_reqs = []
+    for i in range(150 if quick else 2500):
+        if ctx.time_left() < 25:
+            break
+        seed, n = pools[i % len(pools)]
+        theory_heap_case(ctx, rng, seed, n, heap_reqs)
+    table = W.model_answers(ctx, "C14", [r for r, _, _ in reqs] + [r for r, _, _ in heap_reqs])
     if table is not None:
+        for req, impl, replay in heap_reqs:
+            compare_theory_heap(ctx, req, impl, replay, table[req])
+        ctx.count("theory-heap-cases", len(heap_reqs))
         for req, obs, replay in reqs:
             ans = W.parse_answer(table[req])
             if ans is None or len(ans) != len(obs):
